@@ -603,11 +603,16 @@ pub fn key_text(ver: Ver, kind: &str, bytes: &[u8]) -> String {
 
 /// `kind` is "local" or "secret".
 pub fn pie_wrap(ver: Ver, kind: &str, wk: &[u8], n: &[u8; 32], ptk: &[u8]) -> String {
+    pie_wrap_iv(ver, kind, wk, n, ptk, None)
+}
+
+/// `iv`: forced counter block (mirrors the paseto_verif hook); None = derived as specified.
+pub fn pie_wrap_iv(ver: Ver, kind: &str, wk: &[u8], n: &[u8; 32], ptk: &[u8], iv: Option<&[u8; 16]>) -> String {
     let h = format!("{}.{}-wrap.pie.", ver.k(), kind);
     let (c, t) = if ver.nist() {
         let x = hmac384(wk, &[&[0x80], n]);
         let ak = hmac384(wk, &[&[0x81], n]);
-        let c = aes256ctr(&x[..32], &x[32..], ptk);
+        let c = aes256ctr(&x[..32], iv.map(|v| &v[..]).unwrap_or(&x[32..]), ptk);
         let t = hmac384(&ak[..32], &[h.as_bytes(), n, &c]).to_vec();
         (c, t)
     } else {
@@ -814,6 +819,21 @@ pub fn pke_seal_25519(ver: Ver, pk: &[u8], esk: &[u8; 32], pdk: &[u8; 32]) -> MR
     Ok(format!("{h}{}", b64_encode(&blob)))
 }
 
+/// The blob the recipient (holding the Ed25519 secret key) can recompute for a given epk and data key.
+pub fn pke_recompute_25519(ver: Ver, sk64: &[u8], epk: &[u8], pdk: &[u8]) -> MR<String> {
+    let h = format!("{}.seal.", ver.k());
+    let sk = crypto_sign::SecretKey::from_bytes(sk64).map_err(|e| format!("{e}"))?;
+    let xsk = crypto_sign::ed25519_sk_to_curve25519(&sk).map_err(|e| format!("{e}"))?;
+    let pk = crypto_sign::PublicKey::from_bytes(&sk64[32..]).map_err(|e| format!("{e}"))?;
+    let xpk = crypto_sign::ed25519_pk_to_curve25519(&pk).map_err(|e| format!("{e}"))?;
+    let xk = crypto_scalarmult::curve25519::scalarmult(&xsk, epk).map_err(|e| format!("{e}"))?;
+    Ok(format!("{h}{}", b64_encode(&pke_25519_body(&h, &xk, epk, &xpk, pdk))))
+}
+
+pub fn x25519_base(esk: &[u8; 32]) -> MR<[u8; 32]> {
+    crypto_scalarmult::curve25519::scalarmult_base(esk).map_err(|e| format!("{e}"))
+}
+
 fn pke_25519_body(h: &str, xk: &[u8], epk: &[u8], xpk: &[u8], pdk: &[u8]) -> Vec<u8> {
     let ek = blake2b(None, 32, &[&[0x01], h.as_bytes(), xk, epk, xpk]);
     let ak = blake2b(None, 32, &[&[0x02], h.as_bytes(), xk, epk, xpk]);
@@ -852,17 +872,29 @@ pub fn pke_unseal_25519(ver: Ver, sk64: &[u8], text: &str) -> MR<Vec<u8>> {
 
 /// k3: seal to compressed P-384 key `pk49` with ephemeral scalar `esk48`.
 pub fn pke_seal_p384(pk49: &[u8], esk48: &[u8], pdk: &[u8; 32]) -> MR<String> {
+    pke_seal_p384_iv(pk49, esk48, pdk, None)
+}
+
+pub fn pke_seal_p384_iv(pk49: &[u8], esk48: &[u8], pdk: &[u8; 32], iv: Option<&[u8; 16]>) -> MR<String> {
     let h = "k3.seal.";
     let epk = p384_public(esk48)?;
     let xk = p384_ecdh(esk48, pk49)?;
-    let blob = pke_p384_body(h, &xk, &epk, pk49, pdk);
+    let blob = pke_p384_body(h, &xk, &epk, pk49, pdk, iv);
     Ok(format!("{h}{}", b64_encode(&blob)))
 }
 
-fn pke_p384_body(h: &str, xk: &[u8], epk: &[u8], pk: &[u8], pdk: &[u8]) -> Vec<u8> {
+/// The blob the recipient (holding sk) can recompute for a given ephemeral key and data key.
+pub fn pke_recompute_p384(sk48: &[u8], epk: &[u8], pdk: &[u8], iv: Option<&[u8; 16]>) -> MR<String> {
+    let h = "k3.seal.";
+    let pk = p384_public(sk48)?;
+    let xk = p384_ecdh(sk48, epk)?;
+    Ok(format!("{h}{}", b64_encode(&pke_p384_body(h, &xk, epk, &pk, pdk, iv))))
+}
+
+fn pke_p384_body(h: &str, xk: &[u8], epk: &[u8], pk: &[u8], pdk: &[u8], iv: Option<&[u8; 16]>) -> Vec<u8> {
     let x = sha384(&[&[0x01], h.as_bytes(), xk, epk, pk]);
     let ak = sha384(&[&[0x02], h.as_bytes(), xk, epk, pk]);
-    let edk = aes256ctr(&x[..32], &x[32..], pdk);
+    let edk = aes256ctr(&x[..32], iv.map(|v| &v[..]).unwrap_or(&x[32..]), pdk);
     let t = hmac384(&ak, &[h.as_bytes(), epk, &edk]);
     let mut blob = t.to_vec();
     blob.extend_from_slice(epk);
@@ -891,20 +923,30 @@ pub fn pke_unseal_p384(sk48: &[u8], text: &str) -> MR<Vec<u8>> {
 
 /// k1: RSA-KEM with the 512-byte random value `r` (two top bits 01).
 pub fn pke_seal_rsa(pk: &RsaPub, r: &[u8], pdk: &[u8; 32]) -> MR<String> {
+    pke_seal_rsa_iv(pk, r, pdk, None)
+}
+
+pub fn pke_seal_rsa_iv(pk: &RsaPub, r: &[u8], pdk: &[u8; 32], iv: Option<&[u8; 16]>) -> MR<String> {
     let h = "k1.seal.";
     if r.len() != 512 {
         return Err("r length".into());
     }
     let c = i2osp(&BigUint::from_bytes_be(r).modpow(&pk.e, &pk.n), 512);
-    let blob = pke_rsa_body(h, r, &c, pdk);
+    let blob = pke_rsa_body(h, r, &c, pdk, iv);
     Ok(format!("{h}{}", b64_encode(&blob)))
 }
 
-fn pke_rsa_body(h: &str, r: &[u8], c: &[u8], pdk: &[u8]) -> Vec<u8> {
+/// The blob for a known r and ciphertext c (the recipient recovers r = c^d).
+pub fn pke_recompute_rsa(r: &[u8], c: &[u8], pdk: &[u8], iv: Option<&[u8; 16]>) -> String {
+    let h = "k1.seal.";
+    format!("{h}{}", b64_encode(&pke_rsa_body(h, r, c, pdk, iv)))
+}
+
+fn pke_rsa_body(h: &str, r: &[u8], c: &[u8], pdk: &[u8], iv: Option<&[u8; 16]>) -> Vec<u8> {
     let k = sha384(&[c]);
     let x = hmac384(&k, &[&[0x01], h.as_bytes(), r]);
     let ak = hmac384(&k, &[&[0x02], h.as_bytes(), r]);
-    let edk = aes256ctr(&x[..32], &x[32..], pdk);
+    let edk = aes256ctr(&x[..32], iv.map(|v| &v[..]).unwrap_or(&x[32..]), pdk);
     let t = hmac384(&ak, &[h.as_bytes(), c, &edk]);
     let mut blob = t.to_vec();
     blob.extend_from_slice(&edk);
